@@ -204,6 +204,9 @@ def run_model(module, constants, invariants=(), shards=1, tag=None, workers=None
     return total
 
 
+TLAPS_LIB = "/opt/veriftools/tlapm/lib/tlapm/stdlib"
+
+
 def sany_all():
     """Parse every module of the specification (setup / self-test).  Tables.tla extends TablesData, which is
     generated from the shipped .npz files at check time: generate it into the scratch directory first."""
@@ -221,7 +224,10 @@ def sany_all():
         bad.append(("TablesData generation", repr(e)))
     for fn in sorted(os.listdir(SPEC)):
         if fn.endswith(".tla"):
-            p = subprocess.run(["java", "-DTLA-Library=" + lib, "-cp", JAR + ":" + DEPS, "tla2sany.SANY", fn], cwd=SPEC,
+            libs = lib
+            if fn.endswith("Proofs.tla"):       # the TLAPS modules need tlapm's standard library (TLAPS.tla)
+                libs = lib + os.pathsep + TLAPS_LIB
+            p = subprocess.run(["java", "-DTLA-Library=" + libs, "-cp", JAR + ":" + DEPS, "tla2sany.SANY", fn], cwd=SPEC,
                                stdout=subprocess.PIPE, stderr=subprocess.STDOUT, text=True)
             if "*** Errors" in p.stdout or "Fatal" in p.stdout or "Abort" in p.stdout:
                 bad.append((fn, p.stdout[-500:]))
